@@ -20,3 +20,13 @@ def run(rep, tier, seed):
         rep.assume("bounded part (regex constructors, is_valid vs Z3) not built yet")
         return
     bounded_C05.run(rep, tier, seed)
+
+
+def replay(path):
+    import json
+    d = json.load(open(path))
+    if d.get("module", "").startswith("checks.bounded_") or "case" in d:
+        from checks import bounded_C05
+        return bounded_C05.replay(path)
+    from vlib.harness import replay_file
+    return replay_file(path)
